@@ -43,6 +43,43 @@ theorem c01_chunked_roundtrip (cfg : CkCfg) (hcfg : cfg.maxSize = 0) (hmf : cfg.
     rw [this, ckFeed_append, ckFeed_chunk cfg hcfg hc.1 hc.2, ih hrest]
     simp
 
+/-- wire form with a trailer section `tr` behind the last-chunk line (everything up to and including the
+    final CRLF; `wire cs last = wireT cs last [cr, lf]`) -/
+def wireT (cs : List (Bytes × Bytes)) (last tr : Bytes) : Bytes :=
+  cs.flatMap (fun c => c.1 ++ c.2 ++ [cr, lf]) ++ (last ++ tr)
+
+/-- **Chunked bodies with trailers are framed exactly.**  Any chunks in any accepted spelling, a last-chunk
+    line, and a trailer section (`TrailerOk`: NUL-free, ending at its first CRLFCRLF, within
+    max-request-field-size): the decoder ends exactly at the end of the trailer section with the concatenated
+    chunk data, keep-alive on, and every following byte only counts as `after` -- trailer bytes, whatever they
+    spell, are never the start of a request, and the next request starts right behind them. -/
+theorem c01_chunked_trailers_framed (cfg : CkCfg) (hcfg : cfg.maxSize = 0)
+    (cs : List (Bytes × Bytes)) (last tr next : Bytes)
+    (hcs : ∀ c ∈ cs, GoodLine c.1 c.2.length ∧ c.2 ≠ []) (hlast : GoodLine last 0) (ht : TrailerOk cfg last tr) :
+    ckFeed cfg {} (wireT cs last tr ++ next) =
+      { mode := .done, out := cs.flatMap (·.2), ka := true, after := next.length } := by
+  have h1 : ckFeed cfg {} (wireT cs last tr) = { mode := .done, out := cs.flatMap (·.2), ka := true, after := 0 } := by
+    suffices h : ∀ (out : Bytes), ckFeed cfg { mode := .hdr [] false, out := out, ka := true, after := 0 }
+        (wireT cs last tr) = { mode := .done, out := out ++ cs.flatMap (·.2), ka := true, after := 0 } by
+      simpa using h []
+    induction cs with
+    | nil => intro out; simpa [wireT] using ckFeed_final_trailers cfg hlast ht out true 0
+    | cons c rest ih =>
+      intro out
+      have hc := hcs c (by simp)
+      have hrest : ∀ c ∈ rest, GoodLine c.1 c.2.length ∧ c.2 ≠ [] := fun x hx => hcs x (by simp [hx])
+      have : wireT (c :: rest) last tr = (c.1 ++ c.2 ++ [cr, lf]) ++ wireT rest last tr := by
+        simp [wireT]
+      rw [this, ckFeed_append, ckFeed_chunk cfg hcfg hc.1 hc.2, ih hrest]
+      simp
+  rw [ckFeed_append, h1]
+  generalize (cs.flatMap (·.2)) = out
+  suffices h : ∀ k, ckFeed cfg { mode := .done, out := out, ka := true, after := k } next
+      = { mode := .done, out := out, ka := true, after := k + next.length } by simpa using h 0
+  induction next with
+  | nil => intro k; simp [ckFeed_nil]
+  | cons b rest ih => intro k; rw [ckFeed_cons]; simp [ckStep, ih]; omega
+
 /-- Bytes that follow a complete chunked body are not consumed by it (they are the next
     request): they only advance the `after` counter. -/
 theorem c01_chunked_no_overread (cfg : CkCfg) (hcfg : cfg.maxSize = 0) (hmf : cfg.maxField ≥ 1026)
@@ -77,6 +114,30 @@ theorem c01_chunked_bad_size_line_rejected (cfg : CkCfg) (p : Bytes) (e : Nat) (
     (ckFeed cfg { mode := .hdr [] false, out := out, ka := ka, after := 0 } (p ++ [lf])).ka = false := by
   rw [ckFeed_append, ckFeed_hdr_pre cfg p [] out ka 0 hlf hnul (by simp; omega)]
   simp [ckFeed_cons, ckFeed_nil, ckStep, hbad]
+
+/-- **Chunk-size lines against the grammar (soundness).**  Whatever line the decoder accepts as a chunk-size
+    line of value `n` is a `SizeLine`: `1*HEXDIG` of value `n`, optional whitespace, optionally `;` and an
+    extension without control characters, CRLF, at most 1023 bytes -- `SizeLine` is stated without reference to
+    the decoder (Proofs/H1Chunked.lean).  It is RFC 9112 §7.1 with chunk-ext relaxed to "no control
+    characters": no bare CR or LF, no NUL, no other CTL anywhere in the line. -/
+theorem c01_chunked_size_line_grammar (p : Bytes) (n : Nat) (h : ckParseLine (p ++ [lf]) = .ok n) :
+    SizeLine (p ++ [lf]) n :=
+  ckParseLine_sound p n h
+
+/-- **Malformed chunk framing is rejected.**  A complete line (NUL-free, shorter than 1024) where a chunk-size
+    line is expected that is NOT a `SizeLine` of any value puts the decoder into its error state -- status 400,
+    keep-alive off (and by `c01_reject_closes` the connection closes). -/
+theorem c01_chunked_malformed_size_line_rejected (cfg : CkCfg) (p : Bytes) (out : Bytes) (ka : Bool)
+    (hlf : lf ∉ p) (hnul : (0 : UInt8) ∉ p) (hlen : p.length + 1 < 1024)
+    (hbad : ∀ n, ¬ SizeLine (p ++ [lf]) n) :
+    ∃ e, (ckFeed cfg { mode := .hdr [] false, out := out, ka := ka, after := 0 } (p ++ [lf])).mode = .err e ∧
+         (ckFeed cfg { mode := .hdr [] false, out := out, ka := ka, after := 0 } (p ++ [lf])).ka = false := by
+  cases hp : ckParseLine (p ++ [lf]) with
+  | ok n => exact absurd (ckParseLine_sound p n hp) (hbad n)
+  | error e =>
+    refine ⟨e, ?_⟩
+    rw [ckFeed_append, ckFeed_hdr_pre cfg p [] out ka 0 hlf hnul (by simp; omega)]
+    simp [ckFeed_cons, ckFeed_nil, ckStep, hp]
 
 /-- the validator rejects what RFC 9112 §7.1 does not allow at the start of a chunk-size line:
     no hex digit, bare LF, or junk after the size that is neither BWS, ';' nor CR -/
@@ -150,38 +211,102 @@ example : ckFeed {} {} (ofString "5\r\nhello\r\n0\r\n\r\nGET") =
     { mode := .done, out := ofString "hello", ka := true, after := 3 } := by decide
 example : (ckFeed {} {} (ofString "5\r\nhello\rX")).mode = .err 400 := by decide
 example : ckParseLine (ofString "5 x\r\n") = .error 400 := by rfl
+-- bare CR / control character inside a chunk-size line (accepted before the repair of h1_chunked)
+example : (ckFeed {} {} (ofString "5\rXYZ\r\nhello")).mode = .err 400 := by decide
+example : (ckFeed {} {} (ofString "5;\x01\r\nhello")).mode = .err 400 := by decide
+example : SizeLine (ofString "5;x=y\r\n") 5 :=
+  ⟨⟨ofString "5", [], ofString ";x=y", by decide, by decide, by decide, by decide, by decide, .inr ⟨by decide, by decide⟩⟩,
+   by decide⟩
 
-/-! ## request head (request.c) -/
+/-! ## request head (request.c): what an ACCEPTED head looks like, read off the byte block
 
-/-- the request state produced by the request line is "fresh": no body framing yet -/
-def Fresh (r0 : PReq) : Prop := r0.clSeen = false ∧ r0.bodyLen = 0
+  The per-stage statements (request line, one field, field section, cross-field step) are helper
+  lemmas `stage_*` in Proofs/H1Parse.lean.  The theorems here are about `parseHead` applied to a byte
+  block: `c01_parseHead_ok_decompose` exhibits the lines of the block and the records of the stages,
+  the `c01_accepted_*` theorems say what then holds -- each clause of the "always rejected" list is the
+  contrapositive of one conjunct. -/
 
-/-- **Accepted field sections are unambiguous.**  If the header fields are accepted, then every
-    logical field line tokenised, and for the resulting list of (name, value) fields:
-    at most one Content-Length field and its value is all digits and fits int64; every non-empty
-    Transfer-Encoding value is exactly `chunked` (any case) and the request is HTTP/1.1; in strict
-    mode no field value contains a control character; and the framing the parser reports is the
-    RFC 9112 §6.3 rule: chunked iff a Transfer-Encoding field is present, else the Content-Length
-    value, else no body. -/
-theorem c01_accepted_fields_unambiguous (o : Opts) (r0 r : PReq) (lines : List Bytes)
-    (hfresh : Fresh r0) (h : parseHeaders o r0 lines = .ok r) :
-    ∃ fs : List (Bytes × Bytes),
-      (groupFolds lines).map (fieldOf o) = fs.map Except.ok ∧
-      (fs.filter (fun f => f.1 = nCL)).length ≤ 1 ∧
-      (∀ v, (nCL, v) ∈ fs → v ≠ [] ∧ ∃ k : Nat, strtoInt64 v = some k) ∧
-      (∀ v, (nTE, v) ∈ fs → v ≠ [] → eqIcase v vChunked = true ∧ r0.version = 1) ∧
-      (o.headerStrict = true → ∀ f ∈ fs, f.2.any lineCharInvalidStrict = false) ∧
-      (r.bodyLen = -1 ↔ ∃ v, (nTE, v) ∈ fs ∧ v ≠ []) ∧
-      (r.bodyLen ≠ -1 → ∀ v, (nCL, v) ∈ fs → strtoInt64 v = some r.bodyLen.toNat ∧ 0 ≤ r.bodyLen) ∧
-      (r.bodyLen ≠ -1 → (¬ ∃ v, (nCL, v) ∈ fs) → r.bodyLen = 0) ∧
-      (r.clSeen = true ↔ ∃ v, (nCL, v) ∈ fs) := by
-  obtain ⟨fs, htok, happ⟩ := (parseHeaders_ok_iff o r0 r lines).mp h
-  have inv := FramingInv.run fs (FramingInv.init o r0 hfresh.1 hfresh.2) happ
+/-- a reading of the first `len` bytes of a block: request line, physical field lines, blank line,
+    and the records after the request line (`r0`) and after the field section (`r1`), the latter
+    produced from the tokenised fields `fs` -/
+structure Reading where
+  rl : Bytes
+  fields : List Bytes
+  bl : Bytes
+  len : Nat
+  r0 : PReq
+  r1 : PReq
+  fs : List (Bytes × Bytes)
+
+structure IsReading (o : Opts) (mf p : Nat) (block : Bytes) (r : PReq) (t : Target) (R : Reading) : Prop where
+  /-- the lines ARE the first `len` bytes of the block, up to and including its first blank line -/
+  bytes : block.take R.len = (R.rl :: R.fields).flatten ++ R.bl
+  blank : isBlankLine R.bl = true
+  size : R.len ≤ mf
+  lines : ∀ l ∈ R.rl :: R.fields, isBlankLine l = false ∧ l.getLast? = some lf
+  termStrict : o.headerStrict = true → R.bl = [cr, lf]
+  reqline : parseReqline o R.rl (block.take R.len) = .ok R.r0
+  tokens : (groupFolds R.fields).map (fieldOf o) = R.fs.map Except.ok
+  applied : applyFields o R.r0 R.fs = .ok R.r1
+  post : parsePost o p R.r1 = .ok r t
+
+/-- **Decomposition.**  Whatever byte block `parseHead` accepts has a reading: its first bytes are a
+    request line, field lines and a blank line (CRLF in strict mode); the request line step accepts the
+    first, every logical field line tokenises, the fields are accepted in order starting from the
+    request line's record, and the cross-field step accepts the result. -/
+theorem c01_parseHead_ok_decompose (o : Opts) (mf p : Nat) (block : Bytes) (r : PReq) (t : Target)
+    (h : parseHead o mf p block = .ok r t) : ∃ R, IsReading o mf p block r t R := by
+  obtain ⟨rl, fields, len, r0, r1, hrh, hrl, hterm, hph, hpp⟩ := parseHead_ok_decompose h
+  obtain ⟨bl, hbl, htake, hlen, hsz, hne, hl⟩ := recvHead_head_bytes hrh
+  obtain ⟨fs, htok, happ⟩ := (parseHeaders_ok_iff o r0 r1 fields).mp hph
+  exact ⟨⟨rl, fields, bl, len, r0, r1, fs⟩,
+    ⟨htake, hbl, hsz, hl,
+     fun hs => strict_terminator_crlf hbl htake hlen hne (fun l hx => (hl l hx).2) (hterm hs),
+     hrl, htok, happ, hpp⟩⟩
+
+/-- the records of a reading: the request line's record is fresh and carries a known method; fields and the
+    cross-field step leave method, target and version alone -/
+theorem c01_reading_records {o : Opts} {mf p : Nat} {block : Bytes} {r : PReq} {t : Target} {R : Reading}
+    (hR : IsReading o mf p block r t R) :
+    Fresh R.r0 ∧ methodTable.contains r.method = true ∧ r.method = R.r0.method ∧ r.target = R.r0.target ∧
+    r.target ≠ [] ∧ r.bodyLen = R.r1.bodyLen := by
+  have hq := parseReqline_ok hR.reqline
+  obtain ⟨k1, k2, _⟩ := applyFields_keeps o R.fs R.r0 R.r1 hR.applied
+  obtain ⟨p1, _, p3, p4, _, _⟩ := parsePost_ok_keeps hR.post
+  refine ⟨hq.fresh, ?_, p3.trans k2, p4.trans k1, ?_, p1⟩
+  · rw [p3, k2]; exact hq.method
+  · rw [p4, k1]; exact hq.target
+
+/-- **Accepted heads are framed unambiguously (every mode).**  Among the tokenised fields of an accepted
+    block: at most one Content-Length, non-empty, all digits, < 2^63; at most one Transfer-Encoding, non-empty,
+    exactly `chunked` (any case), and only on HTTP/1.1; the framing reported is the RFC 9112 §6.3 rule
+    (chunked iff Transfer-Encoding present, else the Content-Length value, else no body); and a request with
+    both fields is accepted only outside strict mode and then loses keep-alive.
+    Contrapositives: repeated / empty / non-numeric / overflowing Content-Length, empty or repeated
+    Transfer-Encoding, Transfer-Encoding other than chunked or on HTTP/1.0, and (strict) Content-Length
+    together with Transfer-Encoding are rejected. -/
+theorem c01_accepted_head_framing {o : Opts} {mf p : Nat} {block : Bytes} {r : PReq} {t : Target} {R : Reading}
+    (hR : IsReading o mf p block r t R) :
+    (R.fs.filter (fun f => f.1 = nCL)).length ≤ 1 ∧
+    (∀ v, (nCL, v) ∈ R.fs → v ≠ [] ∧ ∃ k : Nat, strtoInt64 v = some k) ∧
+    (R.fs.filter (fun f => f.1 = nTE)).length ≤ 1 ∧
+    (∀ v, (nTE, v) ∈ R.fs → v ≠ [] ∧ eqIcase v vChunked = true ∧ r.version = 1) ∧
+    (r.bodyLen = -1 ↔ ∃ v, (nTE, v) ∈ R.fs) ∧
+    (r.bodyLen ≠ -1 → ∀ v, (nCL, v) ∈ R.fs → strtoInt64 v = some r.bodyLen.toNat ∧ 0 ≤ r.bodyLen) ∧
+    (r.bodyLen ≠ -1 → (¬ ∃ v, (nCL, v) ∈ R.fs) → r.bodyLen = 0) ∧
+    ((∃ v, (nTE, v) ∈ R.fs) → (∃ v, (nCL, v) ∈ R.fs) → o.headerStrict = false ∧ r.keepAlive = false) := by
+  have hq := parseReqline_ok hR.reqline
+  have inv := FramingInv.run R.fs (FramingInv.init o R.r0 hq.fresh.1 hq.fresh.2) hR.applied
   simp only [List.nil_append] at inv
-  refine ⟨fs, htok, inv.clOnce, ?_, inv.te, inv.strictVal, inv.chunked, ?_, ?_, inv.clSeen⟩
+  obtain ⟨p1, p2, _, _, _, p6⟩ := parsePost_ok_keeps hR.post
+  rw [p1]
+  refine ⟨inv.clOnce, ?_, inv.teOnce, ?_, inv.chunked, ?_, ?_, ?_⟩
   · intro v hv
     obtain ⟨h1, k, hk, _⟩ := inv.clNum v hv
     exact ⟨h1, k, hk⟩
+  · intro v hv
+    obtain ⟨h1, h2, h3⟩ := inv.te v hv
+    exact ⟨h1, h2, by rw [p2, inv.version]; exact h3⟩
   · intro hne v hv
     obtain ⟨_, k, hk, hb⟩ := inv.clNum v hv
     rcases hb with hb | hb
@@ -191,187 +316,120 @@ theorem c01_accepted_fields_unambiguous (o : Opts) (r0 r : PReq) (lines : List B
     rcases inv.noCl hno with h0 | h1
     · exact h0
     · exact absurd h1 hne
+  · intro hte hcl
+    exact p6 (inv.chunked.mpr hte) (inv.clSeen.mpr hcl)
 
-/-- repeated Content-Length is always rejected (every mode) -/
-theorem c01_repeated_content_length_rejected (o : Opts) (r0 : PReq) (lines : List Bytes)
-    (fs : List (Bytes × Bytes)) (hfresh : Fresh r0)
-    (htok : (groupFolds lines).map (fieldOf o) = fs.map Except.ok)
-    (hdup : 2 ≤ (fs.filter (fun f => f.1 = nCL)).length) :
-    ∀ r, parseHeaders o r0 lines ≠ .ok r := by
-  intro r h
-  obtain ⟨fs', htok', hone, _⟩ := c01_accepted_fields_unambiguous o r0 r lines hfresh h
-  have : fs' = fs := by
-    have := htok'.symm.trans htok
-    exact (List.map_inj_right (fun a b hab => by injection hab)).mp this
-  subst this
-  omega
+/-- **Strict mode (default): line ends, whitespace, control characters.**  In an accepted block the request
+    line ends in CRLF, the blank line that ends the head is CRLF, every logical field line -- folded or not --
+    unfolds to a line ending in CRLF with CRLF at every fold, no field has whitespace before its colon, and no
+    field value holds a control character other than HT.
+    Contrapositives: bare LF anywhere (request line, field line, fold, terminating blank line), whitespace before
+    the colon, control character in a field value are rejected. -/
+theorem c01_accepted_head_strict {o : Opts} {mf p : Nat} {block : Bytes} {r : PReq} {t : Target} {R : Reading}
+    (hR : IsReading o mf p block r t R) (hs : o.headerStrict = true) :
+    R.bl = [cr, lf] ∧ R.rl.getD (R.rl.length - 2) 0 = cr ∧
+    (∀ g ∈ groupFolds R.fields, ∃ j body, joinFolds true g = some j ∧ stripEol true j = some body ∧
+        j.length ≥ 2 ∧ j.getD (j.length - 2) 0 = cr) ∧
+    (∀ first conts ci, (first :: conts) ∈ groupFolds R.fields → findIdx (· = colon) first 0 = some ci →
+        ((first.take ci).getLast?.map isWs).getD false = false) ∧
+    (∀ f ∈ R.fs, f.2.any lineCharInvalidStrict = false) := by
+  have hq := parseReqline_ok hR.reqline
+  have inv := FramingInv.run R.fs (FramingInv.init o R.r0 hq.fresh.1 hq.fresh.2) hR.applied
+  simp only [List.nil_append] at inv
+  -- every logical line tokenises
+  have htokAll : ∀ g ∈ groupFolds R.fields, ∃ f, fieldOf o g = .ok f := by
+    intro g hg
+    have hm : fieldOf o g ∈ (groupFolds R.fields).map (fieldOf o) := List.mem_map_of_mem hg
+    rw [hR.tokens] at hm
+    obtain ⟨f, _, hf⟩ := List.mem_map.mp hm
+    exact ⟨f, hf.symm⟩
+  refine ⟨hR.termStrict hs, hq.strictEol hs, ?_, ?_, inv.strictVal hs⟩
+  · intro g hg
+    obtain ⟨f, hf⟩ := htokAll g hg
+    obtain ⟨j, body, hj, hb⟩ := fieldOf_ok_stripEol o g f hf
+    rw [hs] at hj hb
+    obtain ⟨h1, h2⟩ := stripEol_strict_crlf j body hb
+    exact ⟨j, body, hj, hb, h1, h2⟩
+  · intro first conts ci hg hci
+    obtain ⟨f, hf⟩ := htokAll _ hg
+    cases hw : ((first.take ci).getLast?.map isWs).getD false with
+    | false => rfl
+    | true =>
+      have := stage_ws_before_colon_rejected_strict o first conts ci hs hci hw
+      rw [this] at hf
+      simp at hf
 
-/-- a Content-Length that is empty, non-numeric or larger than INT64_MAX is always rejected -/
-theorem c01_bad_content_length_rejected (o : Opts) (r0 : PReq) (lines : List Bytes)
-    (fs : List (Bytes × Bytes)) (v : Bytes) (hfresh : Fresh r0)
-    (htok : (groupFolds lines).map (fieldOf o) = fs.map Except.ok)
-    (hmem : (nCL, v) ∈ fs) (hbad : v = [] ∨ strtoInt64 v = none) :
-    ∀ r, parseHeaders o r0 lines ≠ .ok r := by
-  intro r h
-  obtain ⟨fs', htok', _, hnum, _⟩ := c01_accepted_fields_unambiguous o r0 r lines hfresh h
-  have : fs' = fs := by
-    have := htok'.symm.trans htok
-    exact (List.map_inj_right (fun a b hab => by injection hab)).mp this
-  subst this
-  obtain ⟨hne, k, hk⟩ := hnum v hmem
-  rcases hbad with hb | hb
-  · exact hne hb
-  · simp [hb] at hk
+/-- **Missing Host on HTTP/1.1.**  An accepted HTTP/1.1 block has a Host field among its tokenised fields, or
+    its request-target is in absolute form (the request line step then records the authority as host). -/
+theorem c01_accepted_head_host {o : Opts} {mf p : Nat} {block : Bytes} {r : PReq} {t : Target} {R : Reading}
+    (hR : IsReading o mf p block r t R) (hv : r.version = 1) :
+    (∃ v, (nHost, v) ∈ R.fs) ∨ R.r0.host ≠ none := by
+  obtain ⟨_, p2, _, _, p5, _⟩ := parsePost_ok_keeps hR.post
+  obtain ⟨_, _, k3⟩ := applyFields_keeps o R.fs R.r0 R.r1 hR.applied
+  by_cases hex : ∃ v, (nHost, v) ∈ R.fs
+  · exact .inl hex
+  · right
+    intro hnh
+    have h1 : R.r1.host = R.r0.host :=
+      k3 (fun f hf hfe => hex ⟨f.2, by rw [← hfe]; exact hf⟩)
+    have h2 := p5 (by rw [← p2, hv]; exact Nat.le_refl 1)
+    exact h2 (by rw [h1, hnh])
 
-/-- Transfer-Encoding other than exactly `chunked`, or on HTTP/1.0, is always rejected -/
-theorem c01_bad_transfer_encoding_rejected (o : Opts) (r0 : PReq) (lines : List Bytes)
-    (fs : List (Bytes × Bytes)) (v : Bytes) (hfresh : Fresh r0)
-    (htok : (groupFolds lines).map (fieldOf o) = fs.map Except.ok)
-    (hmem : (nTE, v) ∈ fs) (hv : v ≠ [])
-    (hbad : eqIcase v vChunked = false ∨ r0.version ≠ 1) :
-    ∀ r, parseHeaders o r0 lines ≠ .ok r := by
-  intro r h
-  obtain ⟨fs', htok', _, _, hte, _⟩ := c01_accepted_fields_unambiguous o r0 r lines hfresh h
-  have : fs' = fs := by
-    have := htok'.symm.trans htok
-    exact (List.map_inj_right (fun a b hab => by injection hab)).mp this
-  subst this
-  obtain ⟨h1, h2⟩ := hte v hmem hv
-  rcases hbad with hb | hb
-  · simp [hb] at h1
-  · exact hb h2
+/-- **Control characters in the request-target (strict mode, every option set configfile.c can produce).**
+    The request-target of an accepted block carries no control character (0x00-0x1f, DEL) anywhere: before a
+    '#' by URL normalisation (`burlNormalize` percent-encodes it and `containsCtrls` rejects) or by the strict
+    scan, behind the '#' -- which normalisation drops unread -- by the fragment check of the request line step;
+    behind the '#', with url-ctrls-reject, also no SP and no 0xff.  `o.ctrlsReject → o.urlNormalize` is what
+    config_http_parseopts() guarantees (any url option forces url-normalize); the raw bit set ⟨0x41⟩ would
+    accept `/a\x01`. -/
+theorem c01_accepted_target_ctl_free {o : Opts} {mf p : Nat} {block : Bytes} {r : PReq} {t : Target} {R : Reading}
+    (hR : IsReading o mf p block r t R) (hs : o.headerStrict = true)
+    (hreach : o.ctrlsReject = true → o.urlNormalize = true) :
+    (∀ c ∈ r.target, isCtl c = false) ∧
+    (o.ctrlsReject = true → r.method ≠ ofString "CONNECT" → fragmentInvalidStrict r.target = false) := by
+  obtain ⟨k1, k2, _⟩ := applyFields_keeps o R.fs R.r0 R.r1 hR.applied
+  obtain ⟨_, _, p3, p4, _, _⟩ := parsePost_ok_keeps hR.post
+  have ht : r.target = R.r0.target := p4.trans k1
+  have hm : r.method = R.r0.method := p3.trans k2
+  rw [ht, hm]
+  exact ⟨accepted_target_ctl_free hR.reqline k1 k2 hR.post hs hreach,
+         fun hc hnc => (parseReqline_checks hR.reqline).2.2 hs hc hnc⟩
 
-/-- strict mode: a control character (other than HT) in any field value is rejected -/
-theorem c01_ctl_in_value_rejected_strict (o : Opts) (r0 : PReq) (lines : List Bytes)
-    (fs : List (Bytes × Bytes)) (f : Bytes × Bytes) (hfresh : Fresh r0) (hs : o.headerStrict = true)
-    (htok : (groupFolds lines).map (fieldOf o) = fs.map Except.ok)
-    (hmem : f ∈ fs) (hbad : f.2.any lineCharInvalidStrict = true) :
-    ∀ r, parseHeaders o r0 lines ≠ .ok r := by
-  intro r h
-  obtain ⟨fs', htok', _, _, _, hsv, _⟩ := c01_accepted_fields_unambiguous o r0 r lines hfresh h
-  have : fs' = fs := by
-    have := htok'.symm.trans htok
-    exact (List.map_inj_right (fun a b hab => by injection hab)).mp this
-  subst this
-  have := hsv hs f hmem
-  simp [hbad] at this
-
-/-- strict mode: Content-Length together with Transfer-Encoding is rejected;
-    every mode: HTTP/1.1 without Host is rejected -/
-theorem c01_te_and_cl_rejected_strict (o : Opts) (port : Nat) (r : PReq)
-    (hs : o.headerStrict = true) (hte : r.bodyLen = -1) (hcl : r.clSeen = true) :
-    ∀ r' t, parsePost o port r ≠ .ok r' t := by
-  intro r' t h
-  unfold parsePost at h
-  simp only at h
-  split at h
-  · simp at h
-  · split at h
-    · simp at h
-    · simp at h
-    · rename_i rr hstep
-      -- the host step does not touch bodyLen / clSeen
-      have hb : rr.bodyLen = -1 ∧ rr.clSeen = true := by
-        split at hstep
-        · split at hstep <;> simp at hstep; subst hstep; exact ⟨hte, hcl⟩
-        · split at hstep
-          · simp at hstep
-          · split at hstep
-            · simp at hstep
-            · split at hstep
-              · simp at hstep
-              · simp at hstep; subst hstep; exact ⟨hte, hcl⟩
-      split at h
-      · simp at h
-      · split at h
-        · rename_i h0; rw [hb.1] at h0; simp at h0
-        · simp [hb.1, hb.2, hs] at h
-
-theorem c01_http11_without_host_rejected (o : Opts) (port : Nat) (r : PReq)
-    (hv : r.version ≥ 1) (hh : r.host = none) :
-    ∀ r' t, parsePost o port r ≠ .ok r' t := by
-  intro r' t h
-  unfold parsePost at h
-  simp only at h
-  split at h
-  · simp at h
-  · simp [hh, hv] at h
-
-/-- strict mode: a request line that does not end in CRLF (bare LF) is rejected -/
-theorem c01_bare_lf_reqline_rejected_strict (o : Opts) (line block : Bytes)
-    (hs : o.headerStrict = true) (hlf : line.getD (line.length - 2) 0 ≠ cr) :
-    parseReqline o line block = .error 400 := by
-  have : parseReqlineCore o line = .error 400 := by
-    unfold parseReqlineCore
-    split
-    · rfl
-    · simp [hlf, hs]
-  simp [parseReqline, this]
-
-/-- strict mode: whitespace between field name and colon is rejected -/
-theorem c01_ws_before_colon_rejected_strict (o : Opts) (first : Bytes) (conts : List Bytes) (ci : Nat)
-    (hs : o.headerStrict = true) (hci : findIdx (· = colon) first 0 = some ci)
-    (hws : ((first.take ci).getLast?.map isWs).getD false = true) :
-    fieldOf o (first :: conts) = .error 400 := by
-  unfold fieldOf
-  simp [hci, hws, hs]
-
-/-- strict mode: an accepted (unfolded) field line ends in CRLF — bare LF is rejected -/
-theorem c01_bare_lf_field_rejected_strict (o : Opts) (line : Bytes) (f : Bytes × Bytes)
-    (hs : o.headerStrict = true) (h : fieldOf o [line] = .ok f) :
-    line.length ≥ 2 ∧ line.getD (line.length - 2) 0 = cr := by
-  obtain ⟨j, body, hj, hb⟩ := fieldOf_ok_stripEol o [line] f h
-  rw [hs] at hj hb
-  simp only [joinFolds, Option.some.injEq] at hj
-  subst hj
-  exact stripEol_strict_crlf line body hb
-
-/-- lenient mode: a NUL byte anywhere in the header block is rejected by the request line step -/
-theorem c01_nul_rejected_lenient (o : Opts) (line block : Bytes)
-    (hs : o.headerStrict = false) (hnul : block.contains 0 = true) :
-    ∀ r, parseReqline o line block ≠ .ok r := by
-  intro r h
-  unfold parseReqline at h
-  cases hc : parseReqlineCore o line with
-  | error e => simp [hc] at h
-  | ok p =>
-    obtain ⟨r1, uri⟩ := p
-    simp only [hc] at h
-    by_cases he : uri.isEmpty = true
-    · simp [he] at h
-    · have hm : (0 : UInt8) ∈ block := by simpa using hnul
-      simp [he, hs, hm] at h
-
-/-- strict mode: a control character, space or DEL in the request-target is rejected by the
-    request line step when URL control-character rejection is off, and always for CONNECT -/
-theorem c01_ctl_in_target_rejected_strict (o : Opts) (line block : Bytes) (r1 : PReq) (uri : Bytes)
-    (hs : o.headerStrict = true) (hcore : parseReqlineCore o line = .ok (r1, uri))
-    (hmode : o.ctrlsReject = false ∨ r1.method = ofString "CONNECT")
-    (hbad : uri.any uriCharInvalidStrict = true) :
-    parseReqline o line block = .error 400 := by
-  unfold parseReqline
-  simp only [hcore, hs]
-  split
-  · rfl
-  · rcases hmode with hm | hm <;> simp [hm, hbad]
-
-/-- default parse options (header-strict and url-ctrls-reject): the check of the target is
-    left to URL normalisation, which drops a fragment unread — so the request line step itself
-    rejects a control character, space, NUL or DEL anywhere behind the first '#' (D61) -/
-theorem c01_ctl_in_fragment_rejected_default (o : Opts) (line block : Bytes) (r1 : PReq) (uri : Bytes)
-    (hs : o.headerStrict = true) (hcore : parseReqlineCore o line = .ok (r1, uri))
-    (hbad : fragmentInvalidStrict uri = true) :
-    parseReqline o line block = .error 400 := by
-  unfold parseReqline
-  simp only [hcore, hs]
-  split
-  · rfl
-  · have hall : uri.any uriCharInvalidStrict = true := by
-      unfold fragmentInvalidStrict at hbad
-      simp only [List.any_eq_true] at hbad ⊢
-      obtain ⟨b, hb, hbb⟩ := hbad
-      exact ⟨b, (List.dropWhile_sublist _).subset hb, hbb⟩
-    split <;> simp_all
+/-- **NUL.**  Lenient mode: an accepted block has no NUL anywhere in its head (request line, field lines,
+    blank line).  Strict mode (reachable option sets): no NUL in the method, in the request-target, in any
+    field name (every mode) or in any field value.
+    `_partial`: for strict mode the clause "a NUL byte anywhere in the request line or header section" is
+    proved for these token positions only; that the remaining bytes of a line (the two SP and `HTTP/1.x` of the
+    request line, the colon, optional whitespace, fold whitespace and line ends of a field line) partition it
+    together with the tokens -- i.e. that a NUL can sit nowhere else -- is the tokenisers' (`parseReqlineCore`,
+    `fieldOf`) specification, validated by the correspondence, not proved. -/
+theorem c01_nul_rejected_partial {o : Opts} {mf p : Nat} {block : Bytes} {r : PReq} {t : Target} {R : Reading}
+    (hR : IsReading o mf p block r t R) :
+    (o.headerStrict = false → (0 : UInt8) ∉ block.take R.len) ∧
+    (∀ f ∈ R.fs, (0 : UInt8) ∉ f.1) ∧
+    (0 : UInt8) ∉ r.method ∧
+    (o.headerStrict = true → (o.ctrlsReject = true → o.urlNormalize = true) →
+       (0 : UInt8) ∉ r.target ∧ ∀ f ∈ R.fs, (0 : UInt8) ∉ f.2) := by
+  have hq := parseReqline_ok hR.reqline
+  obtain ⟨_, hmeth, _, _, _, _⟩ := c01_reading_records hR
+  refine ⟨fun hs => ?_, ?_, ?_, fun hs hreach => ⟨?_, ?_⟩⟩
+  · have := (parseReqline_checks hR.reqline).1 hs
+    simpa using this
+  · intro f hf
+    have hm : (Except.ok f : Except Nat (Bytes × Bytes)) ∈ R.fs.map Except.ok := List.mem_map_of_mem hf
+    rw [← hR.tokens] at hm
+    obtain ⟨g, _, hg⟩ := List.mem_map.mp hm
+    exact fieldOf_name_nul_free (lc := f.1) (v := f.2) hg
+  · exact methodTable_nul_free _ (by simpa using hmeth)
+  · intro hz
+    have := (c01_accepted_target_ctl_free hR hs hreach).1 0 hz
+    simp [isCtl] at this
+  · intro f hf hz
+    have inv := FramingInv.run R.fs (FramingInv.init o R.r0 hq.fresh.1 hq.fresh.2) hR.applied
+    simp only [List.nil_append] at inv
+    have := inv.strictVal hs f hf
+    rw [List.any_eq_false] at this
+    exact this 0 hz (by decide)
 
 /-! non-vacuity -/
 example : parseReqline ⟨0x255f⟩ (ofString "GET /a#\x01 HTTP/1.1\r\n") [] = .error 400 := by rfl
@@ -384,7 +442,10 @@ example : parseHeaders ⟨1⟩ { version := 1 }
     [ofString "Content-Length: 5\r\n", ofString "Content-Length: 5\r\n"] = .error 400 := by rfl
 example : parseHeaders ⟨1⟩ { version := 0 } [ofString "Transfer-Encoding: chunked\r\n"] = .error 400 := by rfl
 example : parseHeaders ⟨1⟩ { version := 1 } [ofString "Transfer-Encoding: gzip, chunked\r\n"] = .error 501 := by rfl
-
+example : parseHeaders ⟨1⟩ { version := 1 }
+    [ofString "Transfer-Encoding: \r\n", ofString "Content-Length: 3\r\n"] = .error 400 := by rfl
+example : parseHeaders ⟨1⟩ { version := 1 }
+    [ofString "Transfer-Encoding: chunked\r\n", ofString "Transfer-Encoding: chunked\r\n"] = .error 400 := by rfl
 
 /-! ## connection level: pipelines, keep-alive, close after rejection (Model/H1Conn.lean) -/
 
@@ -423,7 +484,8 @@ def Msg.event (cfg : ConnCfg) (m : Msg) : Event :=
 /-- A well-formed message on a kept-alive connection: the head ends at its first blank line, does not
     begin with a control byte, respects the size limits and is accepted by the parser as `r`,`t` with
     keep-alive; the handler reads the body; and the body is what the accepted framing announces:
-    nothing, exactly Content-Length bytes (ANY bytes), or a chunked coding (`wire`) of the payload. -/
+    nothing, exactly Content-Length bytes (ANY bytes), or a chunked coding of the payload with any trailer
+    section (`wireT`; `wire` = no trailer fields). -/
 structure WellFormed (cfg : ConnCfg) (m : Msg) : Prop where
   minimal : MinimalHead m.head
   first : firstOk m.head = true
@@ -435,8 +497,8 @@ structure WellFormed (cfg : ConnCfg) (m : Msg) : Prop where
   framing :
       (m.r.bodyLen = 0 ∧ m.body = [] ∧ m.payload = [])
     ∨ (m.r.bodyLen > 0 ∧ m.body.length = m.r.bodyLen.toNat ∧ m.payload = m.body)
-    ∨ (m.r.bodyLen = -1 ∧ ∃ cs last, (∀ c ∈ cs, GoodLine c.1 c.2.length ∧ c.2 ≠ []) ∧ GoodLine last 0 ∧
-         m.body = wire cs last ∧ m.payload = cs.flatMap (·.2))
+    ∨ (m.r.bodyLen = -1 ∧ ∃ cs last tr, (∀ c ∈ cs, GoodLine c.1 c.2.length ∧ c.2 ≠ []) ∧ GoodLine last 0 ∧
+         TrailerOk (ckCfgOf cfg) last tr ∧ m.body = wireT cs last tr ∧ m.payload = cs.flatMap (·.2))
 
 /-- One well-formed message, received at the start of a request, yields exactly one request event
     carrying exactly its payload, consumes exactly the message (the automaton is back at the start
@@ -460,7 +522,7 @@ theorem c01_message_framed_exactly (cfg : ConnCfg) (hmf : cfg.maxField ≥ 1026)
     rw [hw.parse]
     simp [hms, hw.handler.2]
   rw [hdisp]
-  rcases hw.framing with ⟨h0, hb, hp⟩ | ⟨hpos, hlen, hp⟩ | ⟨hck, cs, last, hcs, hlast, hb, hp⟩
+  rcases hw.framing with ⟨h0, hb, hp⟩ | ⟨hpos, hlen, hp⟩ | ⟨hck, cs, last, tr, hcs, hlast, htr, hb, hp⟩
   · -- no body
     rw [if_pos h0, hb, h1Feed_nil]
     simp [respond, hka, Msg.event, hp, h0]
@@ -478,10 +540,13 @@ theorem c01_message_framed_exactly (cfg : ConnCfg) (hmf : cfg.maxField ≥ 1026)
     have hne0 : m.r.bodyLen ≠ 0 := by omega
     have hnpos : ¬ m.r.bodyLen > 0 := by omega
     rw [if_neg hne0, if_neg hnpos]
-    have hrt := c01_chunked_roundtrip (ckCfgOf cfg) (by simp [ckCfgOf, hms]) (by simp [ckCfgOf]; omega) cs last hcs hlast
-    have hwne : wire cs last ≠ [] := by simp [wire]
+    have hrt := c01_chunked_trailers_framed (ckCfgOf cfg) (by simp [ckCfgOf, hms]) cs last tr [] hcs hlast htr
+    simp only [List.append_nil, List.length_nil] at hrt
+    have hwne : wireT cs last tr ≠ [] := by
+      have := htr.nonempty
+      simp [wireT, this]
     simp only
-    rw [hb, ckConnFeed cfg count m.r m.t _ (wire cs last) {} hwne ?_ (by rw [hrt])]
+    rw [hb, ckConnFeed cfg count m.r m.t _ (wireT cs last tr) {} hwne ?_ (by rw [hrt])]
     · rw [hrt]
       simp [respond, hka, Msg.event, hp, hck]
     · intro p q hpq _ hq
@@ -642,6 +707,54 @@ theorem c01_close_final (cfg : ConnCfg) (bs : Bytes) : ∀ (s : ConnSt) (pre pos
       · simp at h; simp [h, ConnSt.isClosed]
       · simp at h
 
+/-- **Hostile streams: the shape of every event sequence.**  For ANY byte stream from ANY state the events
+    are: request events only, then -- if the connection was closed -- exactly one last event (a request that
+    does not keep the connection alive, a rejection, or the not-modelled marker) followed by `close`.  In
+    particular at most one rejection, nothing after `close`, and no request after a rejection. -/
+theorem c01_event_shape (cfg : ConnCfg) (bs : Bytes) : ∀ (s : ConnSt),
+    ∃ reqs tail, (h1Feed cfg s bs).2 = reqs ++ tail ∧ (∀ e ∈ reqs, e.isRequest = true) ∧
+      (tail = [] ∨ ((h1Feed cfg s bs).1.isClosed = true ∧
+        ∃ ev, tail = [ev, Event.close] ∧
+          (ev.isRequest = true ∨ (∃ st, ev = Event.reject st) ∨ ev = Event.unmodelled))) := by
+  induction bs with
+  | nil => intro s; exact ⟨[], [], by simp [h1Feed_nil], by simp, .inl rfl⟩
+  | cons b rest ih =>
+    intro s
+    rw [h1Feed_cons]
+    have ho := h1Step_out cfg s b
+    generalize h1Step cfg s b = out at ho ⊢
+    cases ho with
+    | silent s' _ _ =>
+      obtain ⟨reqs, tail, h1, h2, h3⟩ := ih s'
+      exact ⟨reqs, tail, by simpa using h1, h2, h3⟩
+    | closedIdle hc =>
+      obtain ⟨phase, c⟩ := s
+      cases phase <;> simp [ConnSt.isClosed] at hc
+      exact ⟨[], [], by simp [h1Feed_closed], by simp, .inl rfl⟩
+    | answered ev hr =>
+      obtain ⟨reqs, tail, h1, h2, h3⟩ := ih { phase := .head [] 0 true, count := s.count + 1 }
+      refine ⟨ev :: reqs, tail, by simp [h1], ?_, h3⟩
+      intro e he
+      simp only [List.mem_cons] at he
+      rcases he with rfl | he
+      · exact hr
+      · exact h2 e he
+    | answeredClose ev hr =>
+      exact ⟨[], [ev, .close], by simp [h1Feed_closed], by simp,
+             .inr ⟨by simp [h1Feed_closed, ConnSt.isClosed], ev, rfl, .inl hr⟩⟩
+    | rejected e =>
+      exact ⟨[], [.reject e, .close], by simp [h1Feed_closed], by simp,
+             .inr ⟨by simp [h1Feed_closed, ConnSt.isClosed], _, rfl, .inr (.inl ⟨e, rfl⟩)⟩⟩
+    | unmodelled =>
+      exact ⟨[], [.unmodelled, .close], by simp [h1Feed_closed], by simp,
+             .inr ⟨by simp [h1Feed_closed, ConnSt.isClosed], _, rfl, .inr (.inr rfl)⟩⟩
+
+/-- ... and prefix-closed: more input only ever appends events -/
+theorem c01_events_prefix_closed (cfg : ConnCfg) (s : ConnSt) (a b : Bytes) :
+    (h1Feed cfg s a).2 <+: (h1Feed cfg s (a ++ b)).2 := by
+  rw [h1Feed_append]
+  exact ⟨_, rfl⟩
+
 /-- number of responses (answers to accepted requests + rejections) in an event sequence -/
 def nResp (evs : List Event) : Nat := (evs.filter Event.isResponse).length
 
@@ -774,7 +887,9 @@ def exBody : Bytes := ofString "GET /x HTTP/1.1\r\n\r"     -- an 18-byte body th
 def exChunked : Bytes := ofString "POST /e HTTP/1.1\r\nHost: h\r\nTransfer-Encoding: chunked\r\n\r\n"
 def mGet : Msg := msgOf exGet [] []
 def mPost : Msg := msgOf exPost exBody exBody
-def mChunked : Msg := msgOf exChunked (wire [(ofString "3;x=y\r\n", ofString "abc")] (ofString "0\r\n")) (ofString "abc")
+def mChunked : Msg :=
+  msgOf exChunked (wireT [(ofString "3;x=y\r\n", ofString "abc")] (ofString "0\r\n") (ofString "X-T: GET / HTTP/1.1\r\n\r\n"))
+    (ofString "abc")
 
 private theorem wfGet : WellFormed exCfg mGet :=
   { minimal := by decide +kernel, first := by decide +kernel, size := by decide +kernel, nlines := by decide +kernel,
@@ -788,12 +903,14 @@ private theorem wfChunked : WellFormed exCfg mChunked :=
   { minimal := by decide +kernel, first := by decide +kernel, size := by decide +kernel, nlines := by decide +kernel,
     parse := parsed_spec _ (by decide +kernel), keep := by decide +kernel, handler := ⟨rfl, rfl⟩,
     framing := .inr (.inr ⟨by decide +kernel, [(ofString "3;x=y\r\n", ofString "abc")], ofString "0\r\n",
+      ofString "X-T: GET / HTTP/1.1\r\n\r\n",
       by
         intro c hc
         simp only [List.mem_singleton] at hc
         subst hc
         exact ⟨⟨by rfl, ⟨ofString "3;x=y\r", by decide, by decide, by decide⟩, by decide⟩, by decide⟩,
-      ⟨by rfl, ⟨ofString "0\r", by decide, by decide, by decide⟩, by decide⟩, rfl, rfl⟩) }
+      ⟨by rfl, ⟨ofString "0\r", by decide, by decide, by decide⟩, by decide⟩,
+      ⟨by decide, by decide, by decide, by decide, by decide⟩, rfl, rfl⟩) }
 
 -- the hypotheses of `c01_no_smuggling` are satisfiable: GET, POST whose Content-Length body looks like a
 -- request, chunked POST -- exactly three request events carrying [], the look-alike body, "abc"
